@@ -178,6 +178,10 @@ def CN.step (d : DictFn) (s : CN) : CEv → Option CN
                        maxActive := max s.maxActive (s.active + 1) }
        | .bad => some (s.terminate true)
        | .need =>
+         -- `bufio.Reader` returns an error it has stored (the end of the stream, seen together with
+         -- the last bytes) before it asks its source again - also when a close notifier has been
+         -- requested in the meantime
+         if let some e := s.rEnd then some (s.terminate (endReport e s.rbuf)) else
          -- `liveSwitchReader.Read`: start the copier if a close notifier is pending, then read
          if s.pending then
            some (CN.readFrom { s with pending := false, src := .pipe, copier := .reading } .pipe)
